@@ -148,6 +148,75 @@ Proof.
     rewrite app_length. simpl in *. lia.
 Qed.
 
+Lemma cut_on_nosep : forall c e, ~ In c e -> cut_on c e = (e, []).
+Proof.
+  induction e as [|b t IH]; simpl; intros NS; auto.
+  destruct (b =? c) eqn:E; [apply N.eqb_eq in E; subst; tauto|].
+  rewrite IH by tauto. reflexivity.
+Qed.
+
+Lemma cut_on_app : forall c e rest, ~ In c e -> cut_on c (e ++ c :: rest) = (e, rest).
+Proof.
+  induction e as [|b t IH]; simpl; intros rest NS.
+  - rewrite N.eqb_refl. reflexivity.
+  - destruct (b =? c) eqn:E; [apply N.eqb_eq in E; subst; tauto|].
+    rewrite IH by tauto. reflexivity.
+Qed.
+
+Lemma cut_on_join : forall e es, ~ In c_slash e -> cut_on c_slash (join_slash (e :: es)) = (e, join_slash es).
+Proof.
+  intros e es NS. destruct es as [|e2 es].
+  - change (join_slash [e]) with e. apply cut_on_nosep; auto.
+  - change (join_slash (e :: e2 :: es)) with (e ++ c_slash :: join_slash (e2 :: es)). apply cut_on_app; auto.
+Qed.
+
+Lemma firstn_app_exact : forall (A : Type) (a b : list A), firstn (length a) (a ++ b) = a.
+Proof. intros. rewrite firstn_app, Nat.sub_diag, firstn_all. simpl. apply app_nil_r. Qed.
+
+(* splitCUEMod and inSubmodule walk up the same chain of directory prefixes *)
+Lemma scm_walk : forall pre suf k k2 hcm a b,
+  pre <> [] -> Forall pelem (pre ++ suf) -> (length pre <= k)%nat -> (length pre <= k2)%nat ->
+  split_cue_mod_aux k (join_slash (pre ++ suf)) (join_slash pre) = (a, b) -> b <> [] ->
+  (a = [] -> ascii_eqfold (hd [] pre) s_cue_mod = true) /\
+  (a <> [] -> In a hcm -> in_submodule_aux k2 hcm (join_slash pre) = true).
+Proof.
+  intros pre. induction pre as [|x pre' IH] using rev_ind; intros suf k k2 hcm a b NP F Lk Lk2 H NB; try congruence.
+  rewrite app_length in Lk, Lk2. simpl in Lk, Lk2.
+  destruct k as [|k]; [lia|]. destruct k2 as [|k2]; [lia|].
+  assert (Fx : pelem x).
+  { apply Forall_app in F. destruct F as [F _]. apply Forall_app in F. destruct F as [_ F]. inversion F; auto. }
+  destruct Fx as [Px Sx].
+  cbn [split_cue_mod_aux] in H. cbn [in_submodule_aux].
+  destruct pre' as [|y pre''].
+  - (* a single element *)
+    simpl app in *. change (join_slash [x]) with x in *.
+    rewrite path_split_noslash in H by auto. rewrite path_split_noslash by auto. cbn [fst].
+    destruct (ascii_eqfold x s_cue_mod) eqn:E.
+    + simpl in H. inversion H; subst. simpl. split; auto; congruence.
+    + simpl in H. inversion H; subst. congruence.
+  - assert (NE' : y :: pre'' <> []) by discriminate.
+    assert (F' : Forall pelem (y :: pre'')).
+    { apply Forall_app in F. destruct F as [F _]. apply Forall_app in F. tauto. }
+    rewrite path_split_join in H by auto. rewrite path_split_join by auto. cbn [fst].
+    destruct (ascii_eqfold x s_cue_mod) eqn:E.
+    + assert (P : join_slash (((y :: pre'') ++ [x]) ++ suf) = (join_slash (y :: pre'') ++ [c_slash]) ++ join_slash (x :: suf)).
+      { rewrite <- app_assoc. unfold join_slash. rewrite join_with_app by (try discriminate; auto).
+        rewrite <- app_assoc. reflexivity. }
+      rewrite P in H. rewrite firstn_app_exact in H. inversion H; subst.
+      split; [intros Q; destruct (join_slash (y :: pre'')); discriminate|].
+      intros _ I. destruct (join_slash (y :: pre'') ++ [c_slash]) eqn:Q; [destruct (join_slash (y :: pre'')); discriminate|].
+      apply mem_str_In in I. rewrite I. reflexivity.
+    + rewrite trim_join_slash in H by auto.
+      destruct (join_slash (y :: pre'')) as [|j0 jt] eqn:J; [exfalso; revert J; apply join_nonempty; auto|].
+      rewrite <- J in *. rewrite <- app_assoc in H, F.
+      destruct (IH ([x] ++ suf) k k2 hcm a b NE' F ltac:(simpl in *; lia) ltac:(simpl in *; lia) H NB) as [A B].
+      split; auto.
+      intros NA I.
+      destruct (join_slash (y :: pre'') ++ [c_slash]) eqn:Q; [destruct (join_slash (y :: pre'')); discriminate|].
+      rewrite <- Q. destruct (mem_str (join_slash (y :: pre'') ++ [c_slash]) hcm); auto.
+      rewrite removelast_snoc. auto.
+Qed.
+
 Section Oracle.
   Variable is_letter : N -> bool.
 
@@ -167,5 +236,21 @@ Section Oracle.
     rewrite E in *. rewrite J at 2. apply dir_chain_contains; auto.
     pose proof (join_length_ge _ F) as L. rewrite <- J in L. rewrite app_length in L.
     destruct pre; [congruence|]. simpl in L. lia.
+  Qed.
+
+  Lemma checked_scm : forall p hcm a b, check_path is_letter p = true -> split_cue_mod p = (a, b) -> b <> [] ->
+    (a = [] -> ascii_eqfold (fst (cut_on c_slash p)) s_cue_mod = true) /\
+    (a <> [] -> In a hcm -> in_submodule hcm p = true).
+  Proof.
+    intros p hcm a b H SC NB. destruct (checked_elems p H) as [J [NE F]].
+    pose proof (join_length_ge _ F) as L. rewrite <- J in L.
+    unfold split_cue_mod in SC. unfold in_submodule.
+    destruct (scm_walk (split_slash p) [] (S (length p)) (S (length p)) hcm a b) as [A B]; auto.
+    - rewrite app_nil_r. exact F.
+    - rewrite app_nil_r, <- J. exact SC.
+    - split.
+      + intros Q. specialize (A Q). destruct (split_slash p) as [|e es] eqn:SP; try congruence.
+        rewrite J. rewrite cut_on_join; auto. inversion F; subst. destruct H2; auto.
+      + intros NA I. rewrite J at 2. auto.
   Qed.
 End Oracle.
